@@ -517,7 +517,7 @@ def run(chk) -> None:
 MANIFEST_ENTRY = {
     "text": "Static decision on the current source that every interaction list is well-formed: same-residue and model skips dominate all appends, contacts come only from the folded 4.0 A query, "
     "all lists pass through sorted() with the lower residue first, the Saenger table (folded) is symmetric under pair reversal, duplicate-free and total into Saenger, LeontisWesthof is closed under reverse, "
-    "the BPh/BR classifier (abstractly evaluated over every base and donor atom) equals the pinned class table and lands in 0..9, merge rules 3+5->4, 7+9->8 and one class per residue pair.",
+    "the BPh/BR classifier (abstractly evaluated over every base and donor atom) equals the pinned class table and lands in 0..9, merge rules 3+5->4, 7+9->8 and one class per residue pair. Since round 3 the emission sites are decided by fact-level rules (checks/c11e.py): sort keys must hold every component the comparison reads (also through a module-level key function), sorted() over a set with a non-total order leaves ties in hash order, registration of interactions by value.",
     "note": "Trusted: pinned Zirbel class table, OrderedSet order. Not decided: float tests inside the torsion split beyond their boundary; uniqueness of interactions relies on KD-tree pair uniqueness and the occupied-edge rule of C03.",
-    "technique": "static analysis: table folding and closure checks, abstract evaluation of the classifier over its finite input domain, dominance of skips, must-pass-through sorted()",
+    "technique": "static analysis: table folding and closure checks, abstract evaluation of the classifier over its finite input domain, dominance of skips, must-pass-through sorted() + symbolic path execution of the emission sites, sort-key/total-order analysis",
 }
